@@ -114,14 +114,35 @@ class Repo:
                     self._load_py(rel)
         self._pyx_loaded = False
         self.renames = {}
+        self.equivalent = {}
         if os.environ.get('VERIF_NO_RENAME') != '1':
             for rel in list(self.modules):
                 self._normalise(rel)
 
+    def _ref_signatures(self):
+        if getattr(self, '_sigs', None) is None:
+            from . import rename, normal
+            mods = []
+            for dirpath, dirnames, filenames in os.walk(os.path.join(rename.REFERENCE, 'enspara')):
+                for fn in sorted(filenames):
+                    if fn.endswith('.py'):
+                        path = os.path.join(dirpath, fn)
+                        try:
+                            with open(path, encoding='utf-8') as f:
+                                src = f.read()
+                            mods.append(Module(os.path.relpath(path, rename.REFERENCE), src, ast.parse(src), 'py'))
+                        except (OSError, SyntaxError):
+                            pass
+            self._sigs = normal.package_signatures(mods)
+        return self._sigs
+
     def _normalise(self, rel):
-        """Map merely-renamed locals back to the names of the reference
-        snapshot (see sa/rename.py)."""
-        from . import rename
+        """Recognise behaviour-preserving refactorings of the reference
+        snapshot (see sa/normal.py, sa/rename.py): a function whose normal
+        form equals that of the reference function is analysed in its
+        reference spelling; otherwise merely-renamed locals are mapped back
+        to the reference names."""
+        from . import rename, normal
         ref_path = os.path.join(rename.REFERENCE, rel)
         if not os.path.exists(ref_path):
             return
@@ -137,11 +158,34 @@ class Repo:
             else:
                 rtree = _canon_tree(ast.parse(rsrc))
             rmod = Module(rel, rsrc, rtree, cur.kind)
+            sigs = self._ref_signatures()
+            spliced = []
+            cur_fns = _all_functions(cur.tree)
+            ref_fns = dict(_all_functions(rmod.tree))
+            for key, (fn, holder, idx) in cur_fns:
+                if key not in ref_fns:
+                    continue
+                rfn = ref_fns[key][0]
+                if ast.dump(fn) == ast.dump(rfn):
+                    continue
+                try:
+                    same = normal.nf_key(fn, sigs) == normal.nf_key(rfn, sigs)
+                except Exception:
+                    same = False
+                if same:
+                    rfn.decorator_list = fn.decorator_list
+                    holder[idx] = rfn
+                    spliced.append(key[0])
+            if spliced:
+                ast.fix_missing_locations(cur.tree)
+                cur = Module(rel, cur.src, cur.tree, cur.kind)
+                self.modules[rel] = cur
+                self.equivalent.setdefault(rel, []).extend(spliced)
             applied = rename.normalise_module(cur, rmod)
             if applied:
                 self.renames[rel] = applied
         except Exception as e:       # never let normalisation break a check
-            self.errors.append((rel + ' (rename normalisation)', repr(e)))
+            self.errors.append((rel + ' (normalisation)', repr(e)))
 
     def _load_py(self, rel):
         path = os.path.join(self.root, rel)
@@ -205,6 +249,34 @@ class Repo:
             h.update(rel.encode())
             h.update((m.src if m else '').encode())
         return h.hexdigest()[:16]
+
+
+def _all_functions(tree):
+    """[((qualname, occurrence), (FunctionDef, holder list, index))] for every
+    function definition (duplicates such as property getter/setter kept)."""
+    out = []
+    seen = {}
+
+    def walk(body, prefix):
+        for i, s in enumerate(body):
+            if isinstance(s, (ast.FunctionDef, ast.AsyncFunctionDef)):
+                q = prefix + s.name
+                k = seen.get(q, 0)
+                seen[q] = k + 1
+                out.append(((q, k), (s, body, i)))
+                walk(s.body, q + '.<locals>.')
+            elif isinstance(s, ast.ClassDef):
+                walk(s.body, prefix + s.name + '.')
+            elif isinstance(s, (ast.If, ast.Try, ast.With, ast.For, ast.While)):
+                for f in ('body', 'orelse', 'finalbody'):
+                    b = getattr(s, f, None)
+                    if isinstance(b, list):
+                        walk(b, prefix)
+                if isinstance(s, ast.Try):
+                    for h in s.handlers:
+                        walk(h.body, prefix)
+    walk(tree.body, '')
+    return out
 
 
 # ---------------------------------------------------------------------------
